@@ -476,33 +476,41 @@ def r5_setitem_routing(rep, src):
     # the single-line setter: newline refused, ' ' + value + '\n' handed to the raw setter
     s = src.func(PM + ':Deb822ParagraphElement.set_field_to_simple_value')
     rep.saw_func(s)
-    V = symstr.atom('V', r'[^\n]*')
-    W = symstr.atom('W', r'(?s:.*)\n(?s:.*)')
-    for cname, value in (('V (no newline)', V), ('W (contains a newline)', W)):
-        calls = []
+    # (a test of the value that the case does not decide splits the case: every sub-case is judged)
+    for cname, aname, lang in (('V (no newline)', 'V', r'[^\n]*'), ('W (contains a newline)', 'W', r'(?s:.*)\n(?s:.*)')):
+        def body(cur, aname=aname):
+            calls = []
 
-        def raw2(it, args, kw, calls=calls):
-            calls.append(args[1:])
-        heap = H.Heap(src.mod(PM), hooks={'.set_field_from_raw_string': raw2})
-        heap.symbolic_strings = True
-        para = heap.alloc('Deb822ParagraphElement', {}, name='@paragraph')
-        it = H.Interp(heap)
-        exc = None
-        try:
-            it.call(H.Closure(s.node, {}, para, s.cls), [item, value], {'preserve_original_field_comment': None, 'field_comment': None})
-        except H.Raised as x:
-            exc = x.exc
+            def raw2(it, args, kw, calls=calls):
+                calls.append(args[1:])
+            heap = H.Heap(src.mod(PM), hooks={'.set_field_from_raw_string': raw2})
+            heap.symbolic_strings = True
+            para = heap.alloc('Deb822ParagraphElement', {}, name='@paragraph')
+            it = H.Interp(heap)
+            exc = None
+            try:
+                it.call(H.Closure(s.node, {}, para, s.cls), [item, cur[aname]], {'preserve_original_field_comment': None, 'field_comment': None})
+            except H.Raised as x:
+                exc = x.exc
+            return exc, calls, cur[aname]
         what = 'simple value %s' % cname
-        if cname.startswith('W'):
-            if exc == 'ValueError' and not calls:
-                rep.ok('C05.R5', s.site, what, 'ValueError')
-            else:
-                rep.fail('C05.R5', s.site, what, 'a value with a newline is not refused by the single-line setter', where=s.where)
-        elif exc is None and len(calls) == 1 and len(calls[0]) > 1 and isinstance(calls[0][1], (SStr, str)) \
-                and symstr.lift(calls[0][1]).same(SStr([' ', V.strip(), '\n'])):
-            rep.ok('C05.R5', s.site, what, "raw value ' ' + V.strip() + '\\n'")
+        bad = None
+        ncases = 0
+        for langs, (exc, calls, value) in symstr.explore({aname: lang}, body):
+            ncases += 1
+            wit = langs[aname].witness()
+            if cname.startswith('W'):
+                if not (exc == 'ValueError' and not calls):
+                    bad = bad or 'a value with a newline (e.g. %r) is not refused by the single-line setter' % (wit,)
+            elif not (exc is None and len(calls) == 1 and len(calls[0]) > 1 and isinstance(calls[0][1], (SStr, str))
+                      and symstr.lift(calls[0][1]).same(SStr([' ', value.strip(), '\n']))):
+                bad = bad or 'for a value without a newline (e.g. %r) set_field_to_simple_value does not build " " + value + "\\n" (got %s)' % (wit, exc or calls)
+        if bad:
+            rep.fail('C05.R5', s.site, what, bad, where=s.where)
+        elif cname.startswith('W'):
+            rep.ok('C05.R5', s.site, what, 'ValueError (%d case(s))' % ncases)
         else:
-            rep.fail('C05.R5', s.site, what, 'set_field_to_simple_value does not build " " + value + "\\n" (got %s)' % (exc or calls), where=s.where)
+            rep.ok('C05.R5', s.site, what, "raw value ' ' + V.strip() + '\\n' (%d case(s))" % ncases)
 
 
 def r6_delitem_routing(rep, src):
